@@ -38,3 +38,870 @@ Example fixed_no_orphan :
   let h := fst (run (ex_cfg true) init_state ex_orphan_events) in
   pending h = [] /\ map rc_rid (concat (map snd (active h))) = [101].
 Proof. vm_compute. split; reflexivity. Qed.
+
+(* ------------------------------------------------------------------------------------------ *)
+(* no_orphans: in every reachable state (with the D2a repair) a node address with queued requests
+   has an armed timer that will release or fail them: a pending challenge for that address, or - no
+   session yet - an active request to it that initiates a session (rc_init).  This is exactly the
+   condition under which send_request queues a request.
+   Together with it: every stored request is stored under the node address of its contact, and its
+   transmission counter satisfies 1 <= rc_retries <= max 1 cfg_retries (timeout_bounded). *)
+Local Close Scope N_scope.
+
+From Discv5V Require Import Proofs.HandlerA_Nonce.   (* alist_get_set & co *)
+
+Definition sess_none (h : hstate) (na : naddr) : Prop := alist_get na (sessions h) = None.
+Definition has_init (h : hstate) (na : naddr) : Prop :=
+  exists l, alist_get na (active h) = Some l /\ existsb rc_init l = true.
+
+(* [cred]: the node address of a session-initiating request that was taken out of the active
+   requests and is about to be re-inserted or failed *)
+Definition AwaitC (cred : option naddr) (h : hstate) (na : naddr) : Prop :=
+  has_challenge h na = true \/ (sess_none h na /\ (cred = Some na \/ has_init h na)).
+Definition Awaiting (h : hstate) (na : naddr) : Prop := AwaitC None h na.
+
+(* per-request facts *)
+Definition Qreq (c : config) (na : naddr) (r : rcall) : Prop :=
+  c_naddr (rc_contact r) = na /\ (1 <= rc_retries r)%N /\ (rc_retries r <= N.max 1 (cfg_retries c))%N.
+Definition AQ (c : config) (act : list (naddr * list rcall)) : Prop :=
+  Forall (fun e => Forall (Qreq c (fst e)) (snd e)) act.
+
+(* [E]: node addresses whose queue is about to be released or failed *)
+Definition NOC (c : config) (cred : option naddr) (E : naddr -> Prop) (h : hstate) : Prop :=
+  AQ c (active h) /\ NoDup (map fst (pending h)) /\
+  forall na, ~ E na -> alist_get na (pending h) = None \/ AwaitC cred h na.
+Definition none : naddr -> Prop := fun _ => False.
+Definition NoOrph (c : config) (h : hstate) : Prop := NOC c None none h.
+
+Lemma naddr_dec : forall a b : naddr, a = b \/ a <> b.
+Proof. intros a b. destruct (naddr_eqb a b) eqn:E; [left; apply naddr_eqb_spec; exact E|right; apply naddr_eqb_neq; exact E]. Qed.
+
+Lemma NOC_weaken : forall c cred (E E' : naddr -> Prop) h, (forall na, E na -> E' na) -> NOC c cred E h -> NOC c cred E' h.
+Proof. intros c cred E E' h H (A & B & C). split; [exact A|split; [exact B|]]. intros na Hn. apply C. auto. Qed.
+
+(* states that agree on the relevant parts *)
+Definition same_no (h' h : hstate) : Prop :=
+  active h' = active h /\ pending h' = pending h /\ challenges h' = challenges h /\
+  (forall na, sess_none h na -> sess_none h' na).
+
+Lemma has_challenge_same : forall h h' na, challenges h' = challenges h -> has_challenge h' na = has_challenge h na.
+Proof. intros h h' na E. unfold has_challenge. rewrite E. reflexivity. Qed.
+
+Lemma NOC_same : forall c cred E h h', same_no h' h -> NOC c cred E h -> NOC c cred E h'.
+Proof.
+  intros c cred E h h' (E1 & E2 & E3 & E4) (A & B & C). split; [rewrite E1; exact A|split; [rewrite E2; exact B|]].
+  intros na Hn. rewrite E2. destruct (C na Hn) as [H|H]; [left; exact H|right].
+  destruct H as [H|[H1 H2]]; [left; rewrite (has_challenge_same h h' na E3); exact H|right].
+  split; [apply E4; exact H1|]. destruct H2 as [H2|H2]; [left; exact H2|right]. unfold has_init in *. rewrite E1. exact H2.
+Qed.
+
+Lemma same_no_refl : forall h, same_no h h.
+Proof. intros h. repeat split; auto. Qed.
+Lemma same_no_trans : forall h1 h2 h3, same_no h1 h2 -> same_no h2 h3 -> same_no h1 h3.
+Proof.
+  intros h1 h2 h3 (A1 & A2 & A3 & A4) (B1 & B2 & B3 & B4). repeat split; try congruence. intros na H. apply A4, B4, H.
+Qed.
+
+Lemma sess_get_no : forall h na, same_no (fst (sess_get h na)) h.
+Proof.
+  intros h na. unfold sess_get. destruct (alist_get na (sessions h)) as [se|] eqn:G; [|apply same_no_refl].
+  cbn [fst]. repeat split. intros na' H. unfold sess_none in *. cbn [set_sessions sessions].
+  rewrite alist_get_app. destruct (naddr_eqb na' na) eqn:E.
+  - apply naddr_eqb_spec in E. subst. congruence.
+  - rewrite alist_get_remove_other by assumption. rewrite H. cbn [alist_get]. rewrite E. reflexivity.
+Qed.
+
+Lemma sess_put_no : forall h na se, alist_get na (sessions h) <> None -> same_no (sess_put h na se) h.
+Proof.
+  intros h na se G. repeat split. intros na' H. unfold sess_none in *. cbn [sess_put set_sessions sessions].
+  rewrite alist_get_set. destruct (naddr_eqb na' na) eqn:E; [|exact H]. apply naddr_eqb_spec in E. subst. contradiction.
+Qed.
+
+Lemma sess_remove_no : forall h na, same_no (sess_remove h na) h.
+Proof.
+  intros h na. repeat split. intros na' H. unfold sess_none in *. cbn [sess_remove set_sessions sessions].
+  apply alist_get_none. apply alist_get_none in H. intros Hin. apply H.
+  apply in_map_iff in Hin. destruct Hin as (x & Hx & Hin). apply alist_remove_in in Hin. apply in_map_iff. eauto.
+Qed.
+
+Lemma alist_get_tl_none : forall {A} (l : list (naddr * A)) k, alist_get k l = None -> alist_get k (tl l) = None.
+Proof.
+  intros A l k H. destruct l as [|[k0 v0] t]; [exact H|]. cbn [tl]. cbn [alist_get] in H.
+  destruct (naddr_eqb k k0); [discriminate|exact H].
+Qed.
+
+Lemma sess_insert_none : forall c h na se na', na' <> na -> sess_none h na' -> sess_none (sess_insert c h na se) na'.
+Proof.
+  intros c h na se na' Hne H. unfold sess_none in *. cbn [sess_insert set_sessions sessions].
+  assert (X : alist_get na' (alist_remove na (sessions h) ++ [(na, se)]) = None).
+  { rewrite alist_get_app. rewrite alist_get_remove_other by (apply naddr_eqb_neq; exact Hne). rewrite H.
+    cbn [alist_get]. apply naddr_eqb_neq in Hne. rewrite Hne. reflexivity. }
+  destruct (Nat.ltb (cfg_capacity c) (length (alist_remove na (sessions h) ++ [(na, se)]))); [|exact X].
+  apply alist_get_tl_none. exact X.
+Qed.
+
+(* stored requests *)
+Lemma AQ_get : forall c act na l, AQ c act -> alist_get na act = Some l -> Forall (Qreq c na) l.
+Proof. intros c act na l H G. apply alist_get_in in G. unfold AQ in H. rewrite Forall_forall in H. apply (H _ G). Qed.
+Lemma AQ_set : forall c act na l', AQ c act -> Forall (Qreq c na) l' -> AQ c (alist_set na l' act).
+Proof. intros c act na l' H Hl. apply Forall_alist_set; assumption. Qed.
+Lemma AQ_remove : forall c act na, AQ c act -> AQ c (alist_remove na act).
+Proof. intros c act na H. apply Forall_alist_remove. exact H. Qed.
+Lemma AQ_put : forall c act na l', AQ c act -> Forall (Qreq c na) l' -> AQ c (put_list na l' act).
+Proof. intros c act na l' H Hl. unfold put_list. destruct l'; [apply AQ_remove|apply AQ_set]; assumption. Qed.
+Lemma AQ_insert : forall c h na r now, AQ c (active h) -> Qreq c na r -> AQ c (active (ar_insert c h na r now)).
+Proof.
+  intros c h na r now H Hr. unfold ar_insert. cbn [set_active active].
+  destruct (alist_get na (active h)) as [l|] eqn:G.
+  - apply AQ_set; [exact H|]. apply Forall_app. split; [eapply AQ_get; eauto|constructor; [exact Hr|constructor]].
+  - apply Forall_app. split; [exact H|]. constructor; [|constructor]. cbn [fst snd]. constructor; [exact Hr|constructor].
+Qed.
+
+Lemma existsb_remove_first : forall {A} (q p : A -> bool) l r l',
+  remove_first p l = Some (r, l') -> existsb q l = q r || existsb q l'.
+Proof.
+  intros A q p. induction l as [|a t IH]; cbn [remove_first]; intros r l' H; [discriminate|].
+  destruct (p a).
+  - inversion H; subst. reflexivity.
+  - destruct (remove_first p t) as [[y t']|]; [|discriminate]. inversion H; subst.
+    cbn [existsb]. rewrite (IH _ _ eq_refl). destruct (q a); destruct (q r); reflexivity.
+Qed.
+
+Lemma has_init_insert : forall c h na r now na', has_init h na' -> has_init (ar_insert c h na r now) na'.
+Proof.
+  intros c h na r now na' (l & G & Hx). unfold has_init, ar_insert. cbn [set_active active].
+  destruct (alist_get na (active h)) as [l0|] eqn:G0.
+  - rewrite alist_get_set. destruct (naddr_eqb na' na) eqn:E.
+    + apply naddr_eqb_spec in E. subst na'. rewrite G in G0. inversion G0; subst. exists (l0 ++ [r]). split; [reflexivity|].
+      rewrite existsb_app, Hx. reflexivity.
+    + exists l. auto.
+  - rewrite alist_get_app, G. exists l. auto.
+Qed.
+Lemma has_init_insert_new : forall c h na r now, rc_init r = true -> has_init (ar_insert c h na r now) na.
+Proof.
+  intros c h na r now Hr. unfold has_init, ar_insert. cbn [set_active active].
+  destruct (alist_get na (active h)) as [l0|] eqn:G0.
+  - rewrite alist_get_set, naddr_eqb_refl. exists (l0 ++ [r]). split; [reflexivity|].
+    rewrite existsb_app. cbn [existsb]. rewrite Hr. destruct (existsb rc_init l0); reflexivity.
+  - rewrite alist_get_app, G0. cbn [alist_get]. rewrite naddr_eqb_refl. exists [r]. split; [reflexivity|].
+    cbn [existsb]. rewrite Hr. reflexivity.
+Qed.
+
+Lemma alist_get_put_other : forall act na l' na', naddr_eqb na' na = false ->
+  alist_get na' (put_list na l' act) = alist_get na' act.
+Proof.
+  intros act na l' na' E. unfold put_list. destruct l'.
+  - apply alist_get_remove_other. exact E.
+  - rewrite alist_get_set, E. reflexivity.
+Qed.
+
+(* taking a request out *)
+Lemma has_init_take : forall h na l p r l' nm na',
+  alist_get na (active h) = Some l -> remove_first p l = Some (r, l') ->
+  has_init h na' ->
+  (na' = na /\ rc_init r = true) \/ has_init (set_active h (put_list na l' (active h)) nm) na'.
+Proof.
+  intros h na l p r l' nm na' G R (l0 & G0 & Hx). destruct (naddr_eqb na' na) eqn:E.
+  - apply naddr_eqb_spec in E. subst na'. rewrite G in G0. inversion G0; subst l0.
+    rewrite (existsb_remove_first rc_init p l r l' R) in Hx. destruct (rc_init r) eqn:Hr; [left; auto|right].
+    cbn [orb] in Hx. unfold has_init. cbn [set_active active]. unfold put_list. destruct l' as [|x l']; [discriminate|].
+    rewrite alist_get_set, naddr_eqb_refl. exists (x :: l'). auto.
+  - right. unfold has_init. cbn [set_active active]. rewrite alist_get_put_other by assumption. exists l0. auto.
+Qed.
+
+Definition cred_of (na : naddr) (r : rcall) : option naddr := if rc_init r then Some na else None.
+
+Lemma NOC_take : forall c E h na l p r l' nm,
+  NOC c None E h -> alist_get na (active h) = Some l -> remove_first p l = Some (r, l') ->
+  NOC c (cred_of na r) E (set_active h (put_list na l' (active h)) nm) /\ Qreq c na r.
+Proof.
+  intros c E h na l p r l' nm (A & B & C) G R.
+  destruct (remove_first_Forall _ _ _ _ _ R (AQ_get _ _ _ _ A G)) as [Hr Hl']. split; [|exact Hr].
+  split; [|split; [exact B|]]; cbn [set_active active pending].
+  - apply AQ_put; assumption.
+  - intros na' Hn. destruct (C na' Hn) as [H|H]; [left; exact H|right].
+    destruct H as [H|[H1 [H2|H2]]]; [left; exact H|discriminate|right]. split; [exact H1|].
+    destruct (has_init_take h na l p r l' nm na' G R H2) as [[E1 E2]|H3]; [left|right; exact H3].
+    subst na'. unfold cred_of. rewrite E2. reflexivity.
+Qed.
+
+(* putting a request (back) in *)
+Lemma NOC_insert : forall c cred E h na r now,
+  NOC c cred E h -> Qreq c na r -> (cred = None \/ (cred = Some na /\ rc_init r = true)) ->
+  NOC c None E (ar_insert c h na r now).
+Proof.
+  intros c cred E h na r now (A & B & C) Hr Hc. split; [apply AQ_insert; assumption|split; [exact B|]].
+  intros na' Hn. destruct (C na' Hn) as [H|H]; [left; exact H|right].
+  destruct H as [H|[H1 H2]]; [left; exact H|right]. split; [exact H1|]. right.
+  destruct H2 as [H2|H2].
+  - destruct Hc as [Hc|[Hc1 Hc2]]; [congruence|]. rewrite Hc1 in H2. inversion H2; subst na'.
+    apply has_init_insert_new. exact Hc2.
+  - apply has_init_insert. exact H2.
+Qed.
+
+Lemma NOC_cred_drop : forall c cred (E : naddr -> Prop) h na, (cred = None \/ cred = Some na) ->
+  NOC c cred E h -> NOC c None (fun a => E a \/ a = na) h.
+Proof.
+  intros c cred E h na Hc (A & B & C). split; [exact A|split; [exact B|]]. intros na' Hn.
+  destruct (C na') as [H|H]; [tauto|left; exact H|right].
+  destruct H as [H|[H1 [H2|H2]]]; [left; exact H| |right; split; [exact H1|right; exact H2]].
+  destruct Hc as [Hc|Hc]; [congruence|]. rewrite Hc in H2. inversion H2; subst. tauto.
+Qed.
+
+(* ------------------------------------------------------------------------------------------ *)
+(* one lemma per model function *)
+
+Lemma sess_get_some : forall h na h2 se, sess_get h na = (h2, Some se) -> alist_get na (sessions h2) <> None.
+Proof.
+  intros h na h2 se H. unfold sess_get in H. destruct (alist_get na (sessions h)) as [s0|]; inversion H; subst.
+  cbn [set_sessions sessions]. rewrite alist_get_app.
+  destruct (alist_get na (alist_remove na (sessions h))); [discriminate|]. cbn [alist_get]. rewrite naddr_eqb_refl. discriminate.
+Qed.
+Lemma sess_get_none : forall h na h2, sess_get h na = (h2, None) -> h2 = h /\ sess_none h na.
+Proof.
+  intros h na h2 H. unfold sess_get in H. destruct (alist_get na (sessions h)) as [s0|] eqn:G; inversion H; subst. auto.
+Qed.
+
+Lemma is_awaiting_session_no : forall s na,
+  same_no (hs (fst (is_awaiting_session s na))) (hs s) /\
+  (snd (is_awaiting_session s na) = true ->
+     sess_none (hs (fst (is_awaiting_session s na))) na /\ has_init (hs (fst (is_awaiting_session s na))) na).
+Proof.
+  intros s na. unfold is_awaiting_session. pose proof (sess_get_no (hs s) na) as H.
+  destruct (sess_get (hs s) na) as [h se] eqn:G. cbn [fst] in H. destruct se as [se|]; cbn [fst snd with_hs hs].
+  - split; [exact H|discriminate].
+  - split; [exact H|]. intros Hx. apply sess_get_none in G. destruct G as [-> G]. split; [exact G|].
+    unfold has_init. destruct (alist_get na (active (hs s))) as [l|]; [|discriminate]. exists l. auto.
+Qed.
+
+Lemma NOC_push_pending : forall c E h na q, NOC c None E h -> AwaitC None h na -> NOC c None E (push_pending h na q).
+Proof.
+  intros c E h na q (A & B & C) Hw. unfold push_pending.
+  assert (W : forall p, AwaitC None (set_pending h p) na) by (intros p; exact Hw).
+  destruct (alist_get na (pending h)) as [l|] eqn:G.
+  - split; [exact A|split]; cbn [set_pending pending active].
+    + rewrite (alist_set_keys _ _ _ _ G). exact B.
+    + intros na' Hn. rewrite alist_get_set. destruct (naddr_eqb na' na) eqn:E1.
+      * apply naddr_eqb_spec in E1. subst na'. right. exact Hw.
+      * destruct (C na' Hn) as [H|H]; [left; exact H|right; exact H].
+  - split; [exact A|split]; cbn [set_pending pending active].
+    + apply alist_keys_app_new; assumption.
+    + intros na' Hn. rewrite alist_get_app. destruct (C na' Hn) as [H|H]; [|right; exact H].
+      rewrite H. cbn [alist_get]. destruct (naddr_eqb na' na) eqn:E1; [|left; reflexivity].
+      apply naddr_eqb_spec in E1. subst na'. right. exact Hw.
+Qed.
+
+Lemma NOC_with_same : forall c cred E s h, same_no h (hs s) -> NOC c cred E (hs s) -> NOC c cred E (hs (with_hs s h)).
+Proof. intros c cred E s h H. cbn [with_hs hs]. apply NOC_same. exact H. Qed.
+
+Lemma Qreq_new : forall c ct p ext rid body init,
+  Qreq c (c_naddr ct) {| rc_contact := ct; rc_pkt := p; rc_ext := ext; rc_rid := rid; rc_body := body;
+                         rc_hs_sent := false; rc_retries := 1; rc_remaining := None; rc_init := init |}.
+Proof. intros. unfold Qreq. cbn [rc_contact rc_retries]. repeat split; lia. Qed.
+
+Lemma send_request_no : forall c E s ct ext rid body now,
+  NOC c None E (hs s) -> NOC c None E (hs (fst (send_request c s ct ext rid body now))).
+Proof.
+  intros c E s ct ext rid body now H. unfold send_request.
+  destruct (existsb (N.eqb (c_addr ct)) (cfg_listen c)); [exact H|].
+  assert (H1 : let r := (if has_challenge (hs s) (c_naddr ct) then (s, true) else is_awaiting_session s (c_naddr ct)) in
+               same_no (hs (fst r)) (hs s) /\ (snd r = true -> AwaitC None (hs (fst r)) (c_naddr ct))).
+  { destruct (has_challenge (hs s) (c_naddr ct)) eqn:Hc; cbn [fst snd].
+    - split; [apply same_no_refl|]. intros _. left. exact Hc.
+    - destruct (is_awaiting_session_no s (c_naddr ct)) as [X1 X2]. split; [exact X1|]. intros Hx. right.
+      destruct (X2 Hx) as [Y1 Y2]. split; [exact Y1|right; exact Y2]. }
+  destruct (if has_challenge (hs s) (c_naddr ct) then (s, true) else is_awaiting_session s (c_naddr ct))
+    as [s1 aw]. cbn [fst snd] in H1. destruct H1 as [H1 H1'].
+  assert (H2 : NOC c None E (hs s1)) by (eapply NOC_same; eauto).
+  destruct aw; cbn [fst].
+  - cbn [with_hs hs]. apply NOC_push_pending; [exact H2|]. apply H1'. reflexivity.
+  - pose proof (sess_get_no (hs s1) (c_naddr ct)) as H4. pose proof (sess_get_some (hs s1) (c_naddr ct)) as H4'.
+    destruct (sess_get (hs s1) (c_naddr ct)) as [h2 se]. cbn [fst] in H4.
+    assert (H3 : NOC c None E h2) by (eapply NOC_same; eauto).
+    destruct se as [se|].
+    + specialize (H4' _ _ eq_refl).
+      pose proof (encrypt_message_hs c (with_hs s1 h2) (c_naddr ct) se (MReq rid body)) as H5.
+      destruct (encrypt_message c (with_hs s1 h2) (c_naddr ct) se (MReq rid body)) as [[s3 se'] p].
+      cbn [fst with_hs hs] in H5. cbn [fst with_hs hs send emit].
+      apply (NOC_insert c None); [|apply Qreq_new|left; reflexivity].
+      cbn [add_expected with_hs hs]. eapply NOC_same; [|exact H3]. rewrite H5.
+      destruct (sess_put_no h2 (c_naddr ct) se' H4') as (P1 & P2 & P3 & P4). repeat split; auto.
+    + destruct (pop_pk (dr (with_hs s1 h2))) as [[[[cn r] aad] x4] d']. cbn [fst with_hs hs send emit].
+      apply (NOC_insert c None); [|apply Qreq_new|left; reflexivity].
+      cbn [add_expected with_hs hs]. eapply NOC_same; [|exact H3]. repeat split; auto.
+Qed.
+
+Lemma send_pending_fold_no : forall c E now l s0, NOC c None E (hs s0) ->
+  NOC c None E (hs (fold_left (fun s q =>
+      let (s', ok) := send_request c s (pq_contact q) (pq_ext q) (pq_rid q) (pq_body q) now in
+      if ok then s'
+      else if pq_ext q then emit s' (OEvent (HRequestFailed (pq_rid q) ERR_SELF_REQUEST)) else s') l s0)).
+Proof.
+  intros c E now l s0 H. apply (fold_left_inv (fun s => NOC c None E (hs s))); [|exact H].
+  intros s' q _ Hs'. pose proof (send_request_no c E s' (pq_contact q) (pq_ext q) (pq_rid q) (pq_body q) now Hs') as X.
+  destruct (send_request c s' (pq_contact q) (pq_ext q) (pq_rid q) (pq_body q) now) as [s'' ok].
+  cbn [fst] in X. destruct ok; [exact X|]. destruct (pq_ext q); exact X.
+Qed.
+
+Lemma NOC_remove_pending : forall c (E : naddr -> Prop) h na,
+  NOC c None (fun a => E a \/ a = na) h -> NOC c None E (set_pending h (alist_remove na (pending h))).
+Proof.
+  intros c E h na (A & B & C). split; [exact A|split]; cbn [set_pending pending active].
+  - apply alist_remove_keys_nodup. exact B.
+  - intros na' Hn. destruct (naddr_eqb na' na) eqn:E1.
+    + apply naddr_eqb_spec in E1. subst na'. left. apply alist_get_remove_same. exact B.
+    + rewrite alist_get_remove_other by assumption. apply naddr_eqb_neq in E1. apply (C na'). tauto.
+Qed.
+
+Lemma NOC_pending_none : forall c (E : naddr -> Prop) h na,
+  NOC c None (fun a => E a \/ a = na) h -> alist_get na (pending h) = None -> NOC c None E h.
+Proof.
+  intros c E h na (A & B & C) G. split; [exact A|split; [exact B|]]. intros na' Hn.
+  destruct (naddr_dec na' na) as [->|Hne]; [left; exact G|]. apply C. tauto.
+Qed.
+
+Lemma send_pending_requests_no : forall c (E : naddr -> Prop) s na now,
+  NOC c None (fun a => E a \/ a = na) (hs s) -> NOC c None E (hs (send_pending_requests c s na now)).
+Proof.
+  intros c E s na now H. unfold send_pending_requests.
+  destruct (alist_get na (pending (hs s))) as [l|] eqn:G.
+  - apply send_pending_fold_no. cbn [with_hs hs]. apply NOC_remove_pending. exact H.
+  - eapply NOC_pending_none; eauto.
+Qed.
+
+Lemma NOC_remove_requests : forall c E h na h3 reqs,
+  NOC c None E h -> alist_get na (pending h) = None -> ar_remove_requests h na = (h3, reqs) -> NOC c None E h3.
+Proof.
+  intros c E h na h3 reqs (A & B & C) G R. unfold ar_remove_requests in R.
+  destruct (alist_get na (active h)) as [l|] eqn:G1; injection R as <- <-; [|split; [exact A|split; [exact B|exact C]]].
+  split; [apply AQ_remove; exact A|split; [exact B|]]. cbn [set_active active pending].
+  intros na' Hn. destruct (naddr_dec na' na) as [->|Hne]; [left; exact G|].
+  destruct (C na' Hn) as [H|H]; [left; exact H|right].
+  destruct H as [H|[H1 [H2|H2]]]; [left; exact H|discriminate|right]. split; [exact H1|right].
+  destruct H2 as (l0 & G0 & Hx). exists l0. split; [|exact Hx]. cbn [set_active active].
+  rewrite alist_get_remove_other; [exact G0|apply naddr_eqb_neq; exact Hne].
+Qed.
+
+Lemma fold_emit_hs_eq : forall {B} (f : st -> B -> st) (l : list B) (s0 : st),
+  (forall s b, hs (f s b) = hs s) -> hs (fold_left f l s0) = hs s0.
+Proof.
+  intros B f l. induction l as [|b t IH]; intros s0 H; cbn [fold_left]; [reflexivity|]. rewrite IH by assumption. apply H.
+Qed.
+
+Lemma fail_session_no : forall c (E : naddr -> Prop) s na err rm,
+  NOC c None (fun a => E a \/ a = na) (hs s) -> NOC c None E (hs (fail_session c s na err rm)).
+Proof.
+  intros c E s na err rm H. unfold fail_session.
+  set (s1 := if rm then with_hs s (sess_remove (hs s) na) else s).
+  assert (H1 : NOC c None (fun a => E a \/ a = na) (hs s1)).
+  { subst s1. destruct rm; [|exact H]. apply NOC_with_same; [apply sess_remove_no|exact H]. }
+  clearbody s1.
+  set (s2 := match alist_get na (pending (hs s1)) with Some l => _ | None => s1 end).
+  assert (H2 : NOC c None E (hs s2) /\ alist_get na (pending (hs s2)) = None).
+  { subst s2. destruct (alist_get na (pending (hs s1))) as [l|] eqn:G.
+    - rewrite fold_emit_hs_eq by (intros s0 q; destruct (pq_ext q); reflexivity). cbn [with_hs hs].
+      split; [apply NOC_remove_pending; exact H1|]. cbn [set_pending pending]. apply alist_get_remove_same. apply H1.
+    - split; [eapply NOC_pending_none; eauto|exact G]. }
+  clearbody s2. destruct H2 as [H2 G2].
+  destruct (ar_remove_requests (hs s2) na) as [h3 reqs] eqn:R.
+  pose proof (NOC_remove_requests c E _ _ _ _ H2 G2 R) as H3.
+  apply (fold_left_inv (fun s' => NOC c None E (hs s'))).
+  - intros s' r _ Hs'. cbn [remove_expected with_hs hs]. eapply NOC_same; [|destruct (rc_ext r); exact Hs'].
+    destruct (rc_ext r); repeat split; auto.
+  - exact H3.
+Qed.
+
+Lemma fail_request_no : forall c (E : naddr -> Prop) cred s na r err rm,
+  Qreq c na r -> (cred = None \/ cred = Some na) -> NOC c cred E (hs s) ->
+  NOC c None E (hs (fail_request c s r err rm)).
+Proof.
+  intros c E cred s na r err rm (Hq & _) Hc H. unfold fail_request. rewrite Hq. apply fail_session_no.
+  eapply NOC_same; [|eapply NOC_cred_drop; eauto]. destruct (rc_ext r); apply same_no_refl.
+Qed.
+
+Lemma upd_pkt_Q : forall c na old p l done, Forall (Qreq c na) l -> Forall (Qreq c na) (upd_pkt old p l done).
+Proof.
+  intros c na old p. induction l as [|r t IH]; intros done H; cbn [upd_pkt]; [constructor|].
+  inversion H; subst. destruct (negb done && nonce_eqb (rc_nonce r) old); constructor; auto.
+Qed.
+Lemma upd_pkt_init : forall old p l done, existsb rc_init (upd_pkt old p l done) = existsb rc_init l.
+Proof.
+  intros old p. induction l as [|r t IH]; intros done; cbn [upd_pkt existsb]; [reflexivity|].
+  destruct (negb done && nonce_eqb (rc_nonce r) old); cbn [existsb rc_init]; rewrite IH; reflexivity.
+Qed.
+
+Lemma NOC_update_packet : forall c cred E h old p now, NOC c cred E h -> NOC c cred E (ar_update_packet c h old p now).
+Proof.
+  intros c cred E h old p now H. rewrite ar_update_packet_eq.
+  destruct (nmap_get old (nmap h)) as [na|]; [|exact H]. cbv zeta.
+  destruct (alist_get na (active h)) as [l|] eqn:G; [|exact H].
+  destruct H as (A & B & C). split; [|split; [exact B|]]; cbn [set_active active pending].
+  - apply AQ_set; [exact A|]. apply upd_pkt_Q. eapply AQ_get; eauto.
+  - intros na' Hn. destruct (C na' Hn) as [H|H]; [left; exact H|right].
+    destruct H as [H|[H1 H2]]; [left; exact H|right]. split; [exact H1|]. destruct H2 as [H2|H2]; [left; exact H2|right].
+    destruct H2 as (l0 & G0 & Hx). unfold has_init. cbn [set_active active]. rewrite alist_get_set.
+    destruct (naddr_eqb na' na) eqn:E1.
+    + apply naddr_eqb_spec in E1. subst na'. rewrite G in G0. inversion G0; subst l0.
+      exists (upd_pkt old p l false). split; [reflexivity|]. rewrite upd_pkt_init. exact Hx.
+    + exists l0. auto.
+Qed.
+
+Lemma replay_active_requests_no : forall c E s na skip now,
+  NOC c None E (hs s) -> NOC c None E (hs (replay_active_requests c s na skip now)).
+Proof.
+  intros c E s na skip now H. unfold replay_active_requests.
+  pose proof (sess_get_no (hs s) na) as H1. pose proof (sess_get_some (hs s) na) as H1'.
+  destruct (sess_get (hs s) na) as [h1 se]. cbn [fst] in H1. destruct se as [se0|]; [|exact H].
+  specialize (H1' _ _ eq_refl).
+  match goal with |- context [fold_left ?f ?l (with_hs s h1, se0, [])] =>
+    assert (X : hs (fst (fst (fold_left f l (with_hs s h1, se0, [])))) = h1) end.
+  { apply (fold_left_inv (fun acc : st * session * list (nonce * packet) => hs (fst (fst acc)) = h1)).
+    - intros [[s' se'] pk] r _ Ha. cbn [fst] in Ha.
+      pose proof (encrypt_message_hs c s' na se' (MReq (rc_rid r) (rc_body r))) as Y.
+      destruct (encrypt_message c s' na se' (MReq (rc_rid r) (rc_body r))) as [[s'' se''] p].
+      cbn [fst] in *. congruence.
+    - reflexivity. }
+  match goal with |- context [fold_left ?f ?l (with_hs s h1, se0, [])] =>
+    destruct (fold_left f l (with_hs s h1, se0, [])) as [[s2 se2] pkts] end.
+  cbn [fst] in X.
+  apply (fold_left_inv (fun s' => NOC c None E (hs s'))).
+  - intros s' x _ Hs'. cbn [send emit with_hs hs]. apply NOC_update_packet. exact Hs'.
+  - cbn [with_hs hs]. rewrite X. eapply NOC_same; [apply sess_put_no; exact H1'|]. eapply NOC_same; eauto.
+Qed.
+
+Lemma NOC_sess_insert : forall c (E : naddr -> Prop) h na se,
+  NOC c None (fun a => E a \/ a = na) h -> NOC c None (fun a => E a \/ a = na) (sess_insert c h na se).
+Proof.
+  intros c E h na se (A & B & C). split; [exact A|split; [exact B|]]. intros na' Hn.
+  destruct (C na' Hn) as [H|H]; [left; exact H|right].
+  destruct H as [H|[H1 H2]]; [left; exact H|right]. split; [|exact H2].
+  apply sess_insert_none; [tauto|exact H1].
+Qed.
+
+Lemma new_session_no : forall c (E : naddr -> Prop) s na se skip now, fix_d2a c = true ->
+  NOC c None (fun a => E a \/ a = na) (hs s) -> NOC c None E (hs (new_session c s na se skip now)).
+Proof.
+  intros c E s na se skip now D2 H. unfold new_session.
+  pose proof (sess_get_no (hs s) na) as H1. pose proof (sess_get_some (hs s) na) as H1'.
+  destruct (sess_get (hs s) na) as [h1 cur]. cbn [fst] in H1.
+  assert (H2 : NOC c None (fun a => E a \/ a = na) h1) by (eapply NOC_same; eauto).
+  destruct cur as [cs|].
+  - specialize (H1' _ _ eq_refl). rewrite D2. apply send_pending_requests_no, replay_active_requests_no.
+    cbn [with_hs hs]. eapply NOC_same; [apply sess_put_no; exact H1'|exact H2].
+  - apply send_pending_requests_no. cbn [with_hs hs]. apply NOC_sess_insert. exact H2.
+Qed.
+
+Lemma handle_request_timeout_no : forall c E s na r now,
+  Qreq c na r -> NOC c (cred_of na r) E (hs s) -> NOC c None E (hs (handle_request_timeout c s na r now)).
+Proof.
+  intros c E s na r now Hq H. unfold handle_request_timeout.
+  destruct (N.leb (cfg_retries c) (rc_retries r)) eqn:Hl.
+  - eapply (fail_request_no c E (cred_of na r) _ na); [exact Hq| |].
+    + unfold cred_of. destruct (rc_init r); auto.
+    + cbn [remove_expected with_hs hs]. eapply NOC_same; [|exact H]. repeat split; auto.
+  - cbn [send emit with_hs hs]. eapply NOC_insert; [exact H| |].
+    + destruct Hq as (Q1 & Q2 & Q3). unfold Qreq. cbn [rc_contact rc_retries]. apply N.leb_gt in Hl.
+      repeat split; [exact Q1|lia|lia].
+    + cbn [rc_init]. unfold cred_of. destruct (rc_init r); auto.
+Qed.
+
+Lemma send_response_no : forall c E s na rid rb, NOC c None E (hs s) -> NOC c None E (hs (send_response c s na rid rb)).
+Proof.
+  intros c E s na rid rb H. unfold send_response.
+  pose proof (sess_get_no (hs s) na) as H1. pose proof (sess_get_some (hs s) na) as H1'.
+  destruct (sess_get (hs s) na) as [h1 se]. cbn [fst] in H1. destruct se as [se|]; [|exact H].
+  specialize (H1' _ _ eq_refl).
+  pose proof (encrypt_message_hs c (with_hs s h1) na se (MResp rid rb)) as Y.
+  destruct (encrypt_message c (with_hs s h1) na se (MResp rid rb)) as [[s2 se'] p].
+  cbn [fst with_hs hs] in Y. cbn [send emit with_hs hs]. rewrite Y.
+  eapply NOC_same; [apply sess_put_no; exact H1'|]. eapply NOC_same; eauto.
+Qed.
+
+Lemma has_challenge_app : forall h na l, has_challenge h na = true -> has_challenge (set_challenges h (challenges h ++ l)) na = true.
+Proof. intros h na l H. unfold has_challenge in *. cbn [set_challenges challenges]. rewrite existsb_app, H. reflexivity. Qed.
+
+Lemma NOC_add_challenge : forall c cred E h x, NOC c cred E h -> NOC c cred E (set_challenges h (challenges h ++ [x])).
+Proof.
+  intros c cred E h x (A & B & C). split; [exact A|split; [exact B|]]. intros na' Hn.
+  destruct (C na' Hn) as [H|H]; [left; exact H|right].
+  destruct H as [H|H]; [left; apply has_challenge_app; exact H|right; exact H].
+Qed.
+
+Lemma send_challenge_no : forall c E s na n known now, NOC c None E (hs s) -> NOC c None E (hs (send_challenge c s na n known now)).
+Proof.
+  intros c E s na n known now H. unfold send_challenge.
+  destruct (has_challenge (hs s) na); [exact H|].
+  destruct (pop_pk (dr s)) as [[[[idn x2] cd] x4] d'].
+  cbn [send emit with_hs hs add_expected].
+  match goal with |- NOC _ _ _ (set_challenges ?h0 (challenges ?h0 ++ [?x])) => apply (NOC_add_challenge c None E h0 x) end.
+  eapply NOC_same; [|exact H]. repeat split; auto.
+Qed.
+
+(* taking a request out while a session exists for its address: the queue does not depend on it *)
+Lemma NOC_take_sess : forall c E h na l p r l' nm,
+  NOC c None E h -> alist_get na (sessions h) <> None ->
+  alist_get na (active h) = Some l -> remove_first p l = Some (r, l') ->
+  NOC c None E (set_active h (put_list na l' (active h)) nm) /\ Qreq c na r.
+Proof.
+  intros c E h na l p r l' nm H Hs G R. destruct (NOC_take c E h na l p r l' nm H G R) as [(A & B & C) Hq].
+  split; [|exact Hq]. split; [exact A|split; [exact B|]]. intros na' Hn.
+  destruct (C na' Hn) as [X|X]; [left; exact X|right].
+  destruct X as [X|[X1 [X2|X2]]]; [left; exact X| |right; split; [exact X1|right; exact X2]].
+  exfalso. unfold cred_of in X2. destruct (rc_init r); [|discriminate]. inversion X2; subst na'.
+  apply Hs. exact X1.
+Qed.
+
+Lemma ar_remove_request_no : forall c E h na rid h1 r,
+  NOC c None E h -> alist_get na (sessions h) <> None -> ar_remove_request h na rid = (h1, Some r) ->
+  NOC c None E h1 /\ Qreq c na r /\ sessions h1 = sessions h.
+Proof.
+  intros c E h na rid h1 r H Hs R. unfold ar_remove_request in R.
+  destruct (alist_get na (active h)) as [l|] eqn:G; [|discriminate].
+  destruct (remove_first (fun r0 => N.eqb (rc_rid r0) rid) l) as [[r0 l']|] eqn:R1; [|discriminate].
+  inversion R; subst. destruct (NOC_take_sess c E h na l _ r l' (nmap_remove (rc_nonce r) (nmap h)) H Hs G R1) as [X Y].
+  split; [exact X|split; [exact Y|reflexivity]].
+Qed.
+
+Lemma handle_response_no : forall c E s na rid rb now,
+  alist_get na (sessions (hs s)) <> None ->
+  NOC c None E (hs s) -> NOC c None E (hs (handle_response c s na rid rb now)).
+Proof.
+  intros c E s na rid rb now Hs H. unfold handle_response.
+  destruct (ar_remove_request (hs s) na rid) as [h1 found] eqn:R.
+  destruct found as [r|]; [|exact H].
+  destruct (ar_remove_request_no c E _ _ _ _ _ H Hs R) as (H1 & Hq & _).
+  assert (RI : forall rem ev, NOC c None E (hs (emit (with_hs (with_hs s h1)
+             (ar_insert c (hs (with_hs s h1)) na
+                {| rc_contact := rc_contact r; rc_pkt := rc_pkt r; rc_ext := rc_ext r; rc_rid := rc_rid r;
+                   rc_body := rc_body r; rc_hs_sent := rc_hs_sent r; rc_retries := rc_retries r;
+                   rc_remaining := rem; rc_init := rc_init r |} now)) ev))).
+  { intros rem ev. cbn [emit with_hs hs]. eapply NOC_insert; [exact H1|exact Hq|left; reflexivity]. }
+  assert (F : forall ev, NOC c None E (hs (emit (remove_expected (with_hs s h1) (snd na)) ev))).
+  { intros ev. cbn [emit remove_expected with_hs hs]. eapply NOC_same; [|exact H1]. repeat split; auto. }
+  cbv zeta. destruct rb as [total recs|tag]; [|apply F].
+  destruct (N.ltb 1 total); [|apply F].
+  destruct (rc_remaining r) as [rem|]; [|apply RI].
+  destruct (negb (N.eqb (rem - 1) 0)); [apply RI|apply F].
+Qed.
+
+Lemma NOC_drop_E : forall c cred (E : naddr -> Prop) h na, NOC c cred E h -> NOC c cred (fun a => E a \/ a = na) h.
+Proof. intros c cred E h na. apply NOC_weaken. tauto. Qed.
+
+Lemma sess_put_get : forall h na se, alist_get na (sessions (sess_put h na se)) <> None.
+Proof. intros h na se. cbn [sess_put set_sessions sessions]. rewrite alist_get_set, naddr_eqb_refl. discriminate. Qed.
+
+Lemma handle_message_no : forall c E s na n aad ct now,
+  NOC c None E (hs s) -> NOC c None E (hs (handle_message c s na n aad ct now)).
+Proof.
+  intros c E s na n aad ct now H. unfold handle_message.
+  pose proof (sess_get_no (hs s) na) as H1. pose proof (sess_get_some (hs s) na) as H1'.
+  destruct (sess_get (hs s) na) as [h1 se]. cbn [fst] in H1. destruct se as [se|]; [|exact H].
+  specialize (H1' _ _ eq_refl).
+  destruct (decrypt_message se n aad ct) as [se' m].
+  set (s2 := with_hs (with_hs s h1) (sess_put (hs (with_hs s h1)) na se')).
+  assert (H2 : NOC c None E (hs s2) /\ alist_get na (sessions (hs s2)) <> None).
+  { subst s2. cbn [with_hs hs]. split; [|apply sess_put_get].
+    eapply NOC_same; [apply sess_put_no; exact H1'|]. eapply NOC_same; eauto. }
+  clearbody s2. destruct H2 as [H2 Hs2].
+  destruct m as [[rid body|rid rb|j]|].
+  - exact H2.
+  - assert (HR : NOC c None E (hs (handle_response c s2 na rid rb now))) by (apply handle_response_no; assumption).
+    destruct (s_await se') as [arid|]; [|exact HR].
+    destruct (N.eqb rid arid); [|exact HR].
+    match goal with |- context [fail_session c ?x na ERR_INVALID_REMOTE_ENR true] => set (s3 := x) end.
+    assert (H3 : NOC c None E (hs s3)).
+    { subst s3.
+      match goal with |- NOC _ _ _ (hs (if fix_d2b c then ?a else ?b)) =>
+        assert (H3 : NOC c None E (hs b) /\ alist_get na (sessions (hs b)) <> None) end.
+      { cbn [with_hs hs]. split; [|apply sess_put_get]. eapply NOC_same; [apply sess_put_no; exact Hs2|exact H2]. }
+      destruct H3 as [H3 Hs3]. destruct (fix_d2b c); [|exact H3].
+      match goal with |- context [ar_remove_request ?h na rid] =>
+        destruct (ar_remove_request h na rid) as [h4 found] eqn:R end.
+      destruct found as [r|]; [|exact H3].
+      destruct (ar_remove_request_no c E _ _ _ _ _ H3 Hs3 R) as (H4 & _ & _).
+      cbn [remove_expected with_hs hs]. eapply NOC_same; [|exact H4]. repeat split; auto. }
+    clearbody s3.
+    assert (HF : forall s', hs s' = hs s3 -> NOC c None E (hs (fail_session c s' na ERR_INVALID_REMOTE_ENR true))).
+    { intros s' Es'. apply fail_session_no. rewrite Es'. apply NOC_drop_E. exact H3. }
+    destruct rb as [total recs|tag]; [|apply HF; reflexivity].
+    destruct (rev recs) as [|e t]; [apply HF; reflexivity|].
+    destruct (verify_enr e na); [exact H3|]. apply HF. reflexivity.
+  - exact H2.
+  - match goal with |- context [has_challenge (hs ?x) na] => assert (H3 : NOC c None E (hs x)) end.
+    { apply fail_session_no, NOC_drop_E. exact H2. }
+    destruct (has_challenge _ na); exact H3.
+Qed.
+
+Lemma has_challenge_remove_other : forall l na na', na' <> na ->
+  existsb (fun x : naddr * chall * N => naddr_eqb (fst (fst x)) na') (chall_remove na l)
+  = existsb (fun x : naddr * chall * N => naddr_eqb (fst (fst x)) na') l.
+Proof.
+  induction l as [|[[a ch] d] t IH]; intros na na' Hne; cbn [chall_remove existsb]; [reflexivity|].
+  destruct (naddr_eqb a na) eqn:E1; cbn [existsb fst].
+  - apply naddr_eqb_spec in E1. subst a. apply not_eq_sym in Hne. apply naddr_eqb_neq in Hne. rewrite Hne. reflexivity.
+  - rewrite IH by assumption. reflexivity.
+Qed.
+
+Lemma NOC_chall_remove : forall c (E : naddr -> Prop) h na,
+  NOC c None E h -> NOC c None (fun a => E a \/ a = na) (set_challenges h (chall_remove na (challenges h))).
+Proof.
+  intros c E h na (A & B & C). split; [exact A|split; [exact B|]]. intros na' Hn.
+  destruct (C na') as [H|H]; [tauto|left; exact H|right].
+  destruct H as [H|H]; [left|right; exact H]. unfold has_challenge in *. cbn [set_challenges challenges].
+  rewrite has_challenge_remove_other; [exact H|tauto].
+Qed.
+
+Lemma handle_auth_message_no : forall c E s na n aad sg eph eph_ok rec ct now, fix_d2a c = true ->
+  NOC c None E (hs s) -> NOC c None E (hs (handle_auth_message c s na n aad sg eph eph_ok rec ct now)).
+Proof.
+  intros c E s na n aad sg eph eph_ok rec ct now D2 H. unfold handle_auth_message.
+  destruct (chall_get na (challenges (hs s))) as [ch|] eqn:G; [|exact H].
+  pose proof (NOC_chall_remove c E (hs s) na H) as H1.
+  set (s1 := with_hs s (set_challenges (hs s) (chall_remove na (challenges (hs s))))) in *.
+  change (set_challenges (hs s) (chall_remove na (challenges (hs s)))) with (hs s1) in H1. clearbody s1.
+  destruct (establish c (fst na) ch sg eph eph_ok rec) as [se e| |].
+  - apply handle_message_no, new_session_no; [exact D2|].
+    eapply NOC_same; [|exact H1]. destruct (verify_enr e na); repeat split; auto.
+  - cbn [with_hs hs]. destruct H1 as (A & B & C). split; [exact A|split; [exact B|]]. intros na' Hn.
+    destruct (naddr_dec na' na) as [->|Hne].
+    + right. left. unfold has_challenge. cbn [set_challenges challenges]. rewrite existsb_app. cbn [existsb fst].
+      rewrite naddr_eqb_refl. destruct (existsb _ (challenges (hs s1))); reflexivity.
+    + destruct (C na') as [X|X]; [tauto|left; exact X|right].
+      destruct X as [X|X]; [left; apply has_challenge_app; exact X|right; exact X].
+  - apply fail_session_no. eapply NOC_same; [|exact H1]. destruct (fix_d6 c); repeat split; auto.
+Qed.
+
+Lemma NOC_put_same : forall c E h na l nm, NOC c None E h -> alist_get na (active h) = Some l ->
+  NOC c None E (set_active h (put_list na l (active h)) nm).
+Proof.
+  intros c E h na l nm (A & B & C) G. split; [|split; [exact B|]]; cbn [set_active active pending].
+  - apply AQ_put; [exact A|]. eapply AQ_get; eauto.
+  - intros na' Hn. destruct (C na' Hn) as [H|H]; [left; exact H|right].
+    destruct H as [H|[H1 [H2|H2]]]; [left; exact H|discriminate|right]. split; [exact H1|right].
+    destruct H2 as (l0 & G0 & Hx). unfold has_init. cbn [set_active active].
+    destruct (naddr_eqb na' na) eqn:E1.
+    + apply naddr_eqb_spec in E1. subst na'. rewrite G in G0. inversion G0; subst l0.
+      unfold put_list. destruct l as [|x l]; [discriminate|]. rewrite alist_get_set, naddr_eqb_refl. eauto.
+    + rewrite alist_get_put_other by assumption. eauto.
+Qed.
+
+Lemma NOC_remove_by_nonce : forall c E h n h1 found,
+  NOC c None E h -> ar_remove_by_nonce h n = (h1, found) ->
+  match found with
+  | Some (na, r) => NOC c (cred_of na r) E h1 /\ Qreq c na r
+  | None => NOC c None E h1
+  end.
+Proof.
+  intros c E h n h1 found H R. unfold ar_remove_by_nonce in R.
+  destruct (nmap_get n (nmap h)) as [na|]; [|inversion R; subst; exact H].
+  destruct (alist_get na (active h)) as [l|] eqn:G.
+  2:{ inversion R; subst. eapply NOC_same; [|exact H]. repeat split; auto. }
+  destruct (remove_first (fun r => nonce_eqb (rc_nonce r) n) l) as [[r l']|] eqn:R1; inversion R; subst.
+  - eapply NOC_take; eauto.
+  - apply NOC_put_same; assumption.
+Qed.
+
+Lemma handle_challenge_no : forall c E s src n seq cd now, fix_d2a c = true ->
+  NOC c None E (hs s) -> NOC c None E (hs (handle_challenge c s src n seq cd now)).
+Proof.
+  intros c E s src n seq cd now D2 H. unfold handle_challenge.
+  destruct (nmap_get n (nmap (hs s))) as [na0|]; [|exact H].
+  destruct (ar_remove_by_nonce (hs s) n) as [h1 found] eqn:R.
+  pose proof (NOC_remove_by_nonce c E _ _ _ _ H R) as H1.
+  destruct found as [[na r]|]; [|exact H1]. destruct H1 as [H1 Hq].
+  assert (Hc : cred_of na r = None \/ (cred_of na r = Some na /\ rc_init r = true)).
+  { unfold cred_of. destruct (rc_init r); auto. }
+  assert (Hc' : cred_of na r = None \/ cred_of na r = Some na) by tauto.
+  destruct (negb (N.eqb (snd na) src)).
+  { cbn [with_hs hs]. eapply NOC_insert; eauto. }
+  destruct (rc_hs_sent r).
+  { eapply (fail_request_no c E (cred_of na r) _ na); [exact Hq|exact Hc'|].
+    eapply NOC_same; [|exact H1]. destruct (fix_d6 c); repeat split; auto. }
+  destruct (pop_pk (dr (with_hs s h1))) as [[[[cn rr] aad] eph] d'].
+  pose proof Hq as (Hna & Hq2 & Hq3). rewrite Hna. cbn [with_hs hs].
+  destruct (c_enr (rc_contact r)) as [e|].
+  - apply new_session_no; [exact D2|]. cbn [emit send with_hs hs].
+    eapply NOC_insert; [eapply NOC_cred_drop; [exact Hc'|exact H1]| |left; reflexivity].
+    unfold Qreq. cbn [rc_contact rc_retries]. auto.
+  - destruct (pop_rid _) as [irid d''].
+    match goal with |- context [send_request c ?s5 ?ct false irid 0%N now] =>
+      pose proof (send_request_no c E s5 ct false irid 0%N now) as X;
+      destruct (send_request c s5 ct false irid 0%N now) as [s6 ok] end.
+    cbn [fst] in X. apply new_session_no; [exact D2|]. apply NOC_drop_E. apply X. cbn [emit send with_hs hs].
+    eapply NOC_insert; [exact H1| |].
+    + unfold Qreq. cbn [rc_contact rc_retries]. auto.
+    + cbn [rc_init]. exact Hc.
+Qed.
+
+Lemma fire_request_no : forall c E s n na now, NOC c None E (hs s) -> NOC c None E (hs (fire_request c s n na now)).
+Proof.
+  intros c E s n na now H. unfold fire_request.
+  assert (H0 : NOC c None E (hs (with_hs s (set_active (hs s) (active (hs s)) (nmap_remove n (nmap (hs s))))))).
+  { cbn [with_hs hs]. eapply NOC_same; [|exact H]. repeat split; auto. }
+  destruct (alist_get na (active (hs s))) as [l|] eqn:G; [|exact H0].
+  destruct (remove_first (fun r => nonce_eqb (rc_nonce r) n) l) as [[r l']|] eqn:R; [|exact H0].
+  destruct (NOC_take c E (hs s) na l _ r l' (nmap_remove n (nmap (hs s))) H G R) as [H1 Hq].
+  apply handle_request_timeout_no; [exact Hq|exact H1].
+Qed.
+
+Lemma fire_challenge_no : forall c E s na now, NOC c None E (hs s) -> NOC c None E (hs (fire_challenge c s na now)).
+Proof.
+  intros c E s na now H. unfold fire_challenge. apply send_pending_requests_no.
+  cbn [remove_expected with_hs hs]. eapply NOC_same; [|apply NOC_chall_remove; exact H]. repeat split; auto.
+Qed.
+
+Lemma fire_group_no : forall c E g s d ft, NOC c None E (hs s) -> NOC c None E (hs (fire_group c s g d ft)).
+Proof.
+  intros c E g s d ft H. unfold fire_group. apply (fold_left_inv (fun s => NOC c None E (hs s))); [|exact H].
+  intros s' x _ Hs'. destruct (nmap_deadline (fst x) (nmap (hs s'))) as [d'|]; [|exact Hs'].
+  destruct (N.eqb d' d); [|exact Hs']. apply fire_request_no. exact Hs'.
+Qed.
+
+Lemma fire_due_no : forall c E now fuel s, NOC c None E (hs s) -> NOC c None E (hs (fire_due c s now fuel)).
+Proof.
+  intros c E now. induction fuel as [|f IH]; intros s H; cbn [fire_due]; [exact H|].
+  assert (FR : forall d, NOC c None E (hs (match group_of d (nmap (hs s)) with
+      | _ :: _ :: _ =>
+        let (rev_order, d') := pop_rev (dr s) in
+        fire_group c {| hs := hs s; dr := d'; outs := outs s |}
+          (if rev_order then rev (group_of d (nmap (hs s))) else group_of d (nmap (hs s))) d (fire_time c d now)
+      | _ => fire_group c s (group_of d (nmap (hs s))) d (fire_time c d now)
+      end))).
+  { intros d. destruct (group_of d (nmap (hs s))) as [|x [|y g]]; try (apply fire_group_no; exact H).
+    destruct (pop_rev (dr s)) as [ro d']. apply fire_group_no. exact H. }
+  assert (FC : forall cna cd, NOC c None E (hs (fire_challenge c s cna (fire_time c cd now)))).
+  { intros. apply fire_challenge_no. exact H. }
+  destruct (min_deadline_nmap (nmap (hs s)) None) as [[[rn ra] rd]|];
+  destruct (min_deadline_ch (challenges (hs s)) None) as [[[cna cc] cd]|].
+  - destruct (N.ltb rd now && (negb (N.ltb cd now) || N.leb rd cd)); [apply IH; apply FR|].
+    destruct (N.ltb cd now); [apply IH; apply FC|exact H].
+  - destruct (N.ltb rd now); [apply IH; apply FR|exact H].
+  - destruct (N.ltb cd now); [apply IH; apply FC|exact H].
+  - exact H.
+Qed.
+
+Lemma step_event_no : forall c E s0 e now, fix_d2a c = true ->
+  NOC c None E (hs s0) -> NOC c None E (hs (step_event c s0 e now)).
+Proof.
+  intros c E s0 e now D2 H. destruct e as [ct rid body|na rid rb|na n known|from p|]; cbn [step_event].
+  - pose proof (send_request_no c E s0 ct true rid body now H) as X.
+    destruct (send_request c s0 ct true rid body now) as [s1 ok]. cbn [fst] in X. destruct ok; exact X.
+  - apply send_response_no. exact H.
+  - apply send_challenge_no. exact H.
+  - destruct p.
+    + apply handle_message_no. exact H.
+    + apply handle_challenge_no; assumption.
+    + apply handle_auth_message_no; assumption.
+  - exact H.
+Qed.
+
+Theorem step_no_orphans : forall c h e now d, fix_d2a c = true -> NoOrph c h -> NoOrph c (fst (step c h e now d)).
+Proof.
+  intros c h e now d D2 H. rewrite step_unfold. cbn [fst]. apply step_event_no; [exact D2|].
+  apply fire_due_no. exact H.
+Qed.
+
+Lemma run_no_orphans : forall c evs h, fix_d2a c = true -> NoOrph c h -> NoOrph c (fst (run c h evs)).
+Proof.
+  intros c. induction evs as [|[[e now] d] rest IH]; intros h D2 H; [exact H|].
+  pose proof (step_no_orphans c h e now d D2 H) as X. cbn [run].
+  destruct (step c h e now d) as [h1 o]. cbn [fst] in *. specialize (IH h1 D2 X).
+  destruct (run c h1 rest) as [h2 os]. exact IH.
+Qed.
+
+Lemma NoOrph_init : forall c, NoOrph c init_state.
+Proof. intros c. split; [constructor|split; [constructor|]]. intros na _. left. reflexivity. Qed.
+
+(* ------------------------------------------------------------------------------------------ *)
+(* the theorems *)
+
+Theorem no_orphans : forall c evs, fix_d2a c = true ->
+  let h := fst (run c init_state evs) in
+  forall na l, alist_get na (pending h) = Some l ->
+    (exists ch d, In (na, ch, d) (challenges h)) \/
+    (alist_get na (sessions h) = None /\
+     exists rs r, alist_get na (active h) = Some rs /\ In r rs /\ rc_init r = true).
+Proof.
+  intros c evs D2 h na l G. destruct (run_no_orphans c evs init_state D2 (NoOrph_init c)) as (_ & _ & C).
+  fold h in C. destruct (C na) as [X|X]; [intros []|congruence|].
+  destruct X as [X|[X1 [X2|X2]]]; [left| discriminate |right].
+  - unfold has_challenge in X. apply existsb_exists in X. destruct X as ([[a ch] d] & Hin & E). cbn [fst] in E.
+    apply naddr_eqb_spec in E. subst a. eauto.
+  - split; [exact X1|]. destruct X2 as (rs & G1 & Hx). apply existsb_exists in Hx. destruct Hx as (r & Hr & Hi). eauto.
+Qed.
+
+(* every stored request: stored under the address of its contact; transmission counter in range *)
+Theorem stored_requests_bounded : forall c evs, fix_d2a c = true ->
+  let h := fst (run c init_state evs) in
+  forall na rs r, In (na, rs) (active h) -> In r rs ->
+    c_naddr (rc_contact r) = na /\ (1 <= rc_retries r)%N /\ (rc_retries r <= N.max 1 (cfg_retries c))%N.
+Proof.
+  intros c evs D2 h na rs r H1 H2. destruct (run_no_orphans c evs init_state D2 (NoOrph_init c)) as (A & _ & _).
+  fold h in A. unfold AQ in A. rewrite Forall_forall in A. specialize (A _ H1). cbn [fst snd] in A.
+  rewrite Forall_forall in A. apply (A _ H2).
+Qed.
+
+(* the timeout handler: a request whose counter has reached cfg_retries is failed and nothing is
+   sent; otherwise exactly one copy of the stored packet is sent and the counter is incremented *)
+Definition wcount (l : list output) : nat := length (filter (fun o => match o with OWire _ _ => true | _ => false end) l).
+
+Lemma wcount_app : forall l1 l2, wcount (l1 ++ l2) = wcount l1 + wcount l2.
+Proof. intros. unfold wcount. rewrite filter_app, app_length. reflexivity. Qed.
+
+Lemma fail_session_wires : forall c s na err rm, wcount (outs (fail_session c s na err rm)) = wcount (outs s).
+Proof.
+  intros c s na err rm. unfold fail_session.
+  set (s1 := if rm then with_hs s (sess_remove (hs s) na) else s).
+  assert (H1 : wcount (outs s1) = wcount (outs s)) by (subst s1; destruct rm; reflexivity). clearbody s1.
+  set (s2 := match alist_get na (pending (hs s1)) with Some l => _ | None => s1 end).
+  assert (H2 : wcount (outs s2) = wcount (outs s)).
+  { subst s2. destruct (alist_get na (pending (hs s1))) as [l|]; [|exact H1].
+    apply (fold_left_inv (fun s' => wcount (outs s') = wcount (outs s))); [|exact H1].
+    intros s' q _ Hs'. destruct (pq_ext q); [|exact Hs']. cbn [emit outs]. rewrite wcount_app, Hs'. cbn. lia. }
+  clearbody s2. destruct (ar_remove_requests (hs s2) na) as [h3 reqs].
+  apply (fold_left_inv (fun s' => wcount (outs s') = wcount (outs s))); [|exact H2].
+  intros s' r _ Hs'. cbn [remove_expected with_hs outs]. destruct (rc_ext r); [|exact Hs'].
+  cbn [emit outs]. rewrite wcount_app, Hs'. cbn. lia.
+Qed.
+
+Theorem timeout_exhausted : forall c s na r now, (cfg_retries c <= rc_retries r)%N ->
+  wcount (outs (handle_request_timeout c s na r now)) = wcount (outs s) /\
+  (rc_ext r = true -> In (OEvent (HRequestFailed (rc_rid r) ERR_TIMEOUT)) (outs (handle_request_timeout c s na r now))).
+Proof.
+  intros c s na r now H. unfold handle_request_timeout. apply N.leb_le in H. rewrite H. unfold fail_request. split.
+  - rewrite fail_session_wires. destruct (rc_ext r); [|reflexivity]. cbn [emit remove_expected with_hs outs].
+    rewrite wcount_app. cbn. lia.
+  - intros Hx. rewrite Hx.
+    assert (X : forall c s0 na0 err rm o, In o (outs s0) -> In o (outs (fail_session c s0 na0 err rm))).
+    { clear. intros c s0 na0 err rm o Hin. unfold fail_session.
+      set (s1 := if rm then with_hs s0 (sess_remove (hs s0) na0) else s0).
+      assert (H1 : In o (outs s1)) by (subst s1; destruct rm; exact Hin). clearbody s1.
+      set (s2 := match alist_get na0 (pending (hs s1)) with Some l => _ | None => s1 end).
+      assert (H2 : In o (outs s2)).
+      { subst s2. destruct (alist_get na0 (pending (hs s1))) as [l|]; [|exact H1].
+        apply (fold_left_inv (fun s' => In o (outs s'))); [|exact H1].
+        intros s' q _ Hs'. destruct (pq_ext q); [|exact Hs']. cbn [emit outs]. apply in_or_app. left. exact Hs'. }
+      clearbody s2. destruct (ar_remove_requests (hs s2) na0) as [h3 reqs].
+      apply (fold_left_inv (fun s' => In o (outs s'))); [|exact H2].
+      intros s' r _ Hs'. cbn [remove_expected with_hs outs]. destruct (rc_ext r); [|exact Hs'].
+      cbn [emit outs]. apply in_or_app. left. exact Hs'. }
+    apply X. cbn [emit outs]. apply in_or_app. right. left. reflexivity.
+Qed.
+
+Theorem timeout_rearmed : forall c s na r now, (rc_retries r < cfg_retries c)%N ->
+  outs (handle_request_timeout c s na r now) = outs s ++ [OWire na (rc_pkt r)] /\
+  hs (handle_request_timeout c s na r now) =
+    ar_insert c (hs s) na
+      {| rc_contact := rc_contact r; rc_pkt := rc_pkt r; rc_ext := rc_ext r; rc_rid := rc_rid r;
+         rc_body := rc_body r; rc_hs_sent := rc_hs_sent r; rc_retries := rc_retries r + 1;
+         rc_remaining := rc_remaining r; rc_init := rc_init r |} now.
+Proof.
+  intros c s na r now H. unfold handle_request_timeout. apply N.leb_gt in H. rewrite H. split; reflexivity.
+Qed.
+
+(* the reachable state of the D2a scenario with the repair satisfies the invariant non-trivially:
+   while request 101 is queued (after the 5th event) a challenge for the peer is pending *)
+Example no_orphans_example :
+  let h := fst (run (ex_cfg true) init_state (firstn 5 ex_orphan_events)) in
+  (exists q, alist_get (2%N, 20%N) (pending h) = Some [q]) /\ length (challenges h) = 1 /\ length (sessions h) = 1.
+Proof. vm_compute. split; [eauto|split; reflexivity]. Qed.
